@@ -195,3 +195,36 @@ chk('C14', 'fault_enumeration',
     'offset) + seeded corruption + crash-during-write histories vs a file '
     'content model',
     'DESIGN.md section 4 (C14)')
+chk('C12', 'exploration',
+    'Every rendering produced by the real representers (Table, FullTable; '
+    'thorough: Full with plots) and the real rst formatter for generated '
+    'results of every kind, shape, failing pattern and non-silent verbosity '
+    'is parsed back with docutils: marks (hl inline nodes / KO) present iff '
+    'the result (or a rendered sub-result) is false; no docutils warning; '
+    'every table reads back cell by cell as the formatted columns of its '
+    'template with the highlight flags at the same rows; in the detailed '
+    'tables of dataset comparisons rows are mapped back to bins through '
+    'their independently formatted bin labels and the highlighted rows must '
+    'be exactly the failing bins with the values / errors of those bins; '
+    'sliced and joined TableTemplates must render as the corresponding rows '
+    'of the original; an icontract invariant keeps columns and highlights of '
+    'every TableTemplate the same size.',
+    'docutils trusted as reader; names and messages without rst markup; plot '
+    'representers only on datasets without length-1 dimensions',
+    'runtime monitoring: docutils read-back oracle over generated results x '
+    'verbosities x representers + icontract invariant on TableTemplate',
+    'DESIGN.md section 4 (C12)')
+chk('C13', 'exploration',
+    'A deep canonical digest of the result (verdict, statistics, test, '
+    'datasets: attributes, mappings with key order and number, arrays with '
+    'dtype/shape/bytes) is taken before and after every operation of random '
+    'sequences (<= 12) of read-only operations on generated results of every '
+    'kind: bool, repr, oracles, counts, per-key views, table / full-table / '
+    'plot / full-plot / full representation and Rst.format_result at every '
+    'verbosity, fingerprint, pickle round trip, copy, deepcopy; the test is '
+    'evaluated a second time and the two results must have the same digest.',
+    'digest-based notion of "unchanged"; operations that raise are not '
+    'changes',
+    'runtime monitoring: deep snapshots around random sequences of read-only '
+    'operations',
+    'DESIGN.md section 4 (C13)')
